@@ -410,10 +410,11 @@ def run(chk: common.Check) -> None:
     with mp.get_context('fork').Pool(n) as pool:
         res = pool.map(_shard, shards)
     impl = {}
+    failed: dict = {}
     for sh in res:
         for i, out, err in sh:
             if err:
-                raise RuntimeError(f'harness failure in scenario {i}: {err}')
+                failed[i] = err           # e.g. the command pipeline never became quiescent: commands stuck on their way
             impl[i] = out
     model_out = None
     model_err = None
@@ -426,6 +427,11 @@ def run(chk: common.Check) -> None:
     oracle_fail = []
     for i, ops in enumerate(scen):
         out = impl[i]
+        if i in failed:
+            if model_out is not None:
+                pos += len(ops) + 1
+            oracle_fail.append((ops, [f'the scenario did not complete: {failed[i]} (commands stuck on their way to the prompts?)'], out))
+            continue
         nex = sum(o.count('exec:') for o in out)
         chk.cov.case(repr(ops), trivial=nex == 0)
         for op in ops:
